@@ -490,6 +490,137 @@ fn run_race(run: &Run, rc: &Race, case: u64, plan: &Plan) {
     crate::scratch::rm(&arch);
 }
 
+// ---------------------------------------------------------------------------
+// two collectors (a gc and a delete) racing for the lock
+
+fn collector_race(run: &Run, tier: Tier) {
+    // three versions sharing blocks plus garbage: the archive builder of C05
+    let a = crate::props::c05::build_archive(run.seed, 1, "c07gc");
+    let oldest = a.bands[0];
+    if !a.world.raw(false).bands.values().last().map(|b| b.complete()).unwrap_or(false) {
+        return;
+    }
+    let body = |ids: Vec<u32>| -> crate::sched::ActorBody<conserve::DeleteStats> {
+        Box::new(move |t, m| {
+            Box::pin(async move {
+                let archive = Archive::open(t).await.map_err(cs::errstr)?;
+                let ids: Vec<conserve::BandId> = ids.iter().map(|b| conserve::BandId::new(&[*b])).collect();
+                archive
+                    .delete_bands(&ids, &conserve::DeleteOptions { dry_run: false, break_lock: false }, m)
+                    .await
+                    .map_err(cs::errstr)
+            })
+        })
+    };
+    // sequential length
+    let probe = {
+        let arch = a.world.sc.fresh("probe");
+        fmt06::copy_dir(&a.world.arch, &arch);
+        let s = Sched::new(&arch, &[A1, A2]);
+        let (_, _, d) = run_two(&s, (A1, body(vec![])), (A2, body(vec![oldest])), &Plan { first: A1, switches: vec![] });
+        crate::scratch::rm(&arch);
+        d.steps + 2
+    };
+    let mut rng = Rng::for_case(run.seed, 1, 14);
+    let mut plans = Vec::new();
+    for first in [A1, A2] {
+        let other = if first == A1 { A2 } else { A1 };
+        plans.push(Plan { first, switches: vec![] });
+        for s1 in 1..probe {
+            plans.push(Plan { first, switches: vec![(s1, other)] });
+            // two preemptions: every pair early on (where the lock is taken), a grid later
+            let stride = tier.pick(4, 1);
+            let mut s2 = s1 + 1;
+            while s2 < probe {
+                if s1 <= 12 || s1 % stride == 0 {
+                    plans.push(Plan { first, switches: vec![(s1, other), (s2, first)] });
+                }
+                s2 += if s2 <= 14 { 1 } else { stride };
+            }
+        }
+    }
+    if tier == Tier::Quick && plans.len() > 2500 {
+        let keep: Vec<Plan> = plans.iter().filter(|p| p.switches.iter().all(|(s, _)| *s <= 14)).cloned().collect();
+        rng.shuffle(&mut plans);
+        plans.truncate(2500 - keep.len().min(2500));
+        plans.extend(keep);
+    }
+    run.count("collector_race_scenarios", 1);
+    let next = std::sync::atomic::AtomicUsize::new(0);
+    std::thread::scope(|sc| {
+        for _ in 0..super::threads() {
+            sc.spawn(|| loop {
+                let i = next.fetch_add(1, std::sync::atomic::Ordering::SeqCst);
+                if i >= plans.len() {
+                    break;
+                }
+                let plan = &plans[i];
+                let arch = a.world.sc.fresh("gcrace");
+                fmt06::copy_dir(&a.world.arch, &arch);
+                let s = Sched::new(&arch, &[A1, A2]);
+                let (o1, o2, _d) = run_two(&s, (A1, body(vec![])), (A2, body(vec![oldest])), plan);
+                run.eval();
+                run.count("collector_race_schedules_run", 1);
+                let log = s.log();
+                let replay = json!({"collector_race": true, "plan": plan.to_json(), "grants": log.iter().map(|e| e.brief()).collect::<Vec<_>>()});
+                let viol = |sig: &str, detail: String| {
+                    run.violation(sig.to_string(), format!("gc racing delete [{oldest}] {plan:?}: {detail} (gc {}, delete {})", o1.describe(), o2.describe()), replay.clone());
+                };
+                // who holds the lock: only its holder removes it or anything else
+                let mut holder: Option<u32> = None;
+                let mut bad = false;
+                for e in log.iter().filter(|e| e.ok()) {
+                    match (e.verb, e.path.as_str()) {
+                        (V::Write, "GC_LOCK") => {
+                            if let Some(h) = holder {
+                                if h != e.actor {
+                                    viol("collector-took-lock-held-by-another", e.brief());
+                                    bad = true;
+                                    break;
+                                }
+                            }
+                            holder = Some(e.actor);
+                            run.count("collector_lock_acquisitions", 1);
+                        }
+                        (V::RemoveFile, "GC_LOCK") => {
+                            if holder != Some(e.actor) {
+                                viol("collector-removed-lock-it-did-not-hold", format!("{} while the lock was held by {holder:?}", e.brief()));
+                                bad = true;
+                                break;
+                            }
+                            holder = None;
+                        }
+                        (V::RemoveFile, _) | (V::RemoveDirAll, _) => {
+                            if holder != Some(e.actor) {
+                                viol("collector-removed-files-without-holding-the-lock", format!("{} while the lock was held by {holder:?}", e.brief()));
+                                bad = true;
+                                break;
+                            }
+                        }
+                        _ => {}
+                    }
+                }
+                if !bad {
+                    if o1.ok() && o2.ok() {
+                        run.count("collector_races_both_succeeded_in_turn", 1);
+                    } else {
+                        run.count("collector_races_with_a_refused_collector", 1);
+                    }
+                    // kept versions are intact
+                    let raw = fmt06::read_archive(&arch, true);
+                    for b in a.bands.iter().filter(|b| **b != oldest) {
+                        if !raw.dangling_refs(*b).is_empty() {
+                            viol("collector-race-removed-referenced-block", format!("b{b:04}: {:?}", &raw.dangling_refs(*b)[..1]));
+                            break;
+                        }
+                    }
+                }
+                crate::scratch::rm(&arch);
+            });
+        }
+    });
+}
+
 fn race_plans(n: usize, tier: Tier, rng: &mut Rng) -> Vec<Plan> {
     let mut v = Vec::new();
     for first in [A1, A2] {
@@ -582,11 +713,16 @@ pub fn run(tier: Tier, replay: Option<Value>) -> i32 {
             });
         }
     }
+    if replay.is_none() || replay.as_ref().and_then(|r| r.get("collector_race")).is_some() {
+        if let Err(m) = crate::report::guard(|| collector_race(&run, tier)) {
+            run.inconclusive(format!("harness error in the collector race: {m}"));
+        }
+    }
     let needs: &[(&str, u64)] = if replay.is_some() { &[] } else {
-        &[("backup_mutating_ops_checked", 200), ("delete_mutating_ops_checked", 20), ("interrupted_or_torn_backups", 5), ("race_schedules_run", 50), ("races_on_the_same_band_id", 5), ("steps_on_archives_with_more_than_10000_hunks_in_a_band", 3)]
+        &[("collector_race_schedules_run", 200), ("collector_races_with_a_refused_collector", 20), ("backup_mutating_ops_checked", 200), ("delete_mutating_ops_checked", 20), ("interrupted_or_torn_backups", 5), ("race_schedules_run", 50), ("races_on_the_same_band_id", 5), ("steps_on_archives_with_more_than_10000_hunks_in_a_band", 3)]
     };
     run.finish(
-        "part 1: histories as in C02, with backups killed at a random operation incl. torn writes, then resumed; the interceptor records for every mutating storage operation the actor, verb, write mode, payload hash and the pre/post state of the target read directly from disk; rules: a backup issues only create_dir and CreateNew writes, never removes, a successful write's target was absent or zero-length, a write onto a non-empty file fails and leaves it unchanged, no path is written twice, every earlier file is byte-identical afterwards (zero-length leftovers may be completed), the new band id exceeds every existing id; delete/gc removes only requested band directories, blocks that an independent reference scan of the kept bands does not reference, and its own GC_LOCK (with someone else's GC_LOCK in place a delete, gc or dry run must leave every file, that lock included, as it is); one history (backup, change, backup, gc, delete newest, gc) runs on a tree of 10 040 files with one entry per hunk, so that the kept versions have hunks in two index subdirectories. part 2: two concurrent backups of differing sources under the deterministic scheduler (all schedules with <=1 preemption, a grid / all of 2 preemptions, random 3-6 switches): same rules on the merged log, each band directory written by one actor only, same id chosen by both => exactly one returns Ok, every complete version whose backup reported no error restores its own source. Distinct = history text / grant sequence.",
+        "part 1: histories as in C02, with backups killed at a random operation incl. torn writes, then resumed; the interceptor records for every mutating storage operation the actor, verb, write mode, payload hash and the pre/post state of the target read directly from disk; rules: a backup issues only create_dir and CreateNew writes, never removes, a successful write's target was absent or zero-length, a write onto a non-empty file fails and leaves it unchanged, no path is written twice, every earlier file is byte-identical afterwards (zero-length leftovers may be completed), the new band id exceeds every existing id; delete/gc removes only requested band directories, blocks that an independent reference scan of the kept bands does not reference, and its own GC_LOCK (with someone else's GC_LOCK in place a delete, gc or dry run must leave every file, that lock included, as it is); one history (backup, change, backup, gc, delete newest, gc) runs on a tree of 10 040 files with one entry per hunk, so that the kept versions have hunks in two index subdirectories. part 2: two concurrent backups of differing sources under the deterministic scheduler (all schedules with <=1 preemption, a grid / all of 2 preemptions, random 3-6 switches): same rules on the merged log, each band directory written by one actor only, same id chosen by both => exactly one returns Ok, every complete version whose backup reported no error restores its own source. part 3: a gc and a delete of the oldest version race for the lock on one archive under the scheduler (all schedules with <= 1 preemption, all pairs of early switch points and a grid of later ones): on the merged log a GC_LOCK is written only while nobody else holds it, removed only by its holder, and band directories and blocks are removed only by the holder; afterwards no kept version has a dangling reference. Distinct = history text / grant sequence.",
         &["pre/post states are read while the issuing actor is the only one running", "schedules beyond the preemption bound are sampled"],
         Some(false),
         needs,
